@@ -303,7 +303,7 @@ Qed.
 
 Lemma exec_frame pol p : forall cid fl it, framed (exec pol p cid fl it).
 Proof.
-  induction p as [| | | | | |to amt cb IHcb|to amt cb IHcb| |p1 p2 IHp1 IHp2|c rf body IHbody|b c f IHb IHc IHf| |] using prog_ind'; intros cid cf it s t rest H; cbn [exec].
+  induction p as [| | | | | |to amt cb IHcb|to amt cb IHcb| |p1 p2 IHp1 IHp2|via c rf body IHbody|b c f IHb IHc IHf| |] using prog_ind'; intros cid cf it s t rest H; cbn [exec].
   - apply frameP_refl; auto.
   - case_if; simpl; [apply frameP_put; auto|eapply below_self; eauto].
   - case_if; simpl; [apply frameP_put; auto|eapply below_self; eauto].
